@@ -504,6 +504,16 @@ fn honest_parts(proto: r::Proto, long_seed: &[u8; 32], online_seed: &[u8; 32], r
         maxt: u64::MAX.to_le_bytes().to_vec(),
         srep_raw: None,
     };
+    let m = midp_value(proto, slot);
+    let (mint, maxt) = match slot.window {
+        1 => (m, u64::MAX),
+        2 => (0, m),
+        3 => (m, m),
+        4 => (m.saturating_sub(1), m.saturating_add(1)),
+        _ => (0, u64::MAX),
+    };
+    p.mint = mint.to_le_bytes().to_vec();
+    p.maxt = maxt.to_le_bytes().to_vec();
     p.sign_dele(long_seed, proto);
     p.sign_srep(online_seed);
     p
@@ -521,7 +531,7 @@ fn other(proto: r::Proto) -> r::Proto {
 fn ref_respond(spec: &RefServerSpec, ordinal: usize, request: &[u8], src: SocketAddr) -> RefExchange {
     let long_seed = seed32(spec.long_seed, "ref-long");
     let online_seed = seed32(spec.online_seed, "ref-online");
-    let slot = spec.slots.get(ordinal).cloned().unwrap_or(SlotSpec { index: 0, depth: 0, midp_secs: 1_700_000_000, midp_sub_us: 0, forgeries: vec![], sibling_seed: 0, delay_us: 0 });
+    let slot = spec.slots.get(ordinal).cloned().unwrap_or(SlotSpec { index: 0, depth: 0, midp_secs: 1_700_000_000, midp_sub_us: 0, forgeries: vec![], sibling_seed: 0, delay_us: 0, window: 0 });
     let srv = r::srv_value(&r::pubkey_from_seed(&long_seed));
     let (proto, nonce) = match r::classify_request(request, &srv) {
         Ok(i) => (i.proto, i.nonce),
@@ -643,6 +653,15 @@ fn ref_respond(spec: &RefServerSpec, ordinal: usize, request: &[u8], src: Socket
                 if n >= w {
                     parts.path.truncate(n - w);
                 }
+            }
+            Forgery::ResignedShortRoot(len) => {
+                let n = (*len as usize / 4 * 4).min(parts.root.len());
+                parts.root.truncate(n);
+                parts.sign_srep(&online_seed);
+            }
+            Forgery::ResignedWrongRoot(seed) => {
+                Rng::derive(*seed, "wrong-root").fill(&mut parts.root);
+                parts.sign_srep(&online_seed);
             }
             Forgery::Drop => out = Some(vec![]),
             other => post.push(other.clone()),
